@@ -126,7 +126,13 @@ def build_array(col, n):
             cindex = pd.Index(np.array(cats, dtype=object), dtype=object)
         return pd.Categorical.from_codes(codes, categories=cindex, ordered=bool(col.get("ordered")))
     if kind == "nullable":
-        return pd.array([pd.NA if v is MISSING else v for v in vals], dtype=col["sub"])
+        # built from an exact numpy array and a mask: pd.array(list, dtype="UInt64") goes through float64 when the list
+        # mixes values above the int64 range with others, and silently changes them
+        mask = np.array([v is MISSING for v in vals], dtype=bool)
+        if col["sub"] == "boolean":
+            return pd.arrays.BooleanArray(np.array([False if v is MISSING else bool(v) for v in vals], dtype=bool), mask)
+        data = np.array([0 if v is MISSING else int(v) for v in vals], dtype=col["sub"].lower())
+        return pd.arrays.IntegerArray(data, mask)
     if kind == "pyobj":
         a = np.empty(n, dtype=object)
         conv = {"int": int, "bool": bool, "float": float}[col["sub"]]
